@@ -10,13 +10,14 @@ import (
 	"strings"
 	"time"
 
+	"github.com/facebookincubator/dns/dnsrocks/dnsdata"
 	"github.com/facebookincubator/dns/dnsrocks/zzverif/nd"
 	"github.com/miekg/dns"
 )
 
 //verif:include ../dnsdata/rdb/zz_verif_model.go
 //verif:include ../db/zz_verif_world.go
-//verif:harness H12_seq property=C12 native=no quick=h=2,lru=1,layout=2,names=3;h=2,lru=2,layout=0,names=2;h=3,lru=2,layout=1,names=1 thorough=h=2,lru=1,layout=1,names=5;h=3,lru=2,layout=2,names=2;h=3,lru=1,layout=0,names=2
+//verif:harness H12_seq property=C12 native=no quick=h=2,lru=1,layout=2,names=3,amb=0;h=2,lru=2,layout=0,names=2,amb=0;h=3,lru=2,layout=1,names=1,amb=0;h=2,lru=2,layout=2,names=1,amb=1 thorough=h=2,lru=1,layout=1,names=5,amb=0;h=3,lru=2,layout=2,names=2,amb=0;h=3,lru=1,layout=0,names=2,amb=0
 //verif:subst H12_seq time.Now github.com/facebookincubator/dns/dnsrocks/dnsserver.verifNow
 
 var verifClockSec int64 = 1_700_000_000
@@ -62,13 +63,37 @@ func verifSameResponse(a, b *dns.Msg, tag string) {
 	}
 }
 
-var verifC12Names = []string{"p.z.", "c.z.", "y.", "q.z.", "d.z."}
+var verifC12Names = []string{"p.z.", "d.z.", "c.z.", "y.", "q.z."} // d.z. is a delegation: its referral carries the class of the question
+
+//verif:harness H04_cache property=C04 native=no quick=h=2,lru=2,layout=2,names=1,amb=1 thorough=h=2,lru=2,layout=0,names=1,amb=1
+
+// H04_cache: C04 with the response cache in the way: two clients of different locations (whose
+// ids read alike without padding) ask the same name; each must get its own location's records.
+// Same run as H12_seq with amb=1, registered for C04.
+func H04_cache() { H12_seq() }
 
 func H12_seq() {
 	h, layout := nd.Param("h"), nd.Param("layout")
 	verifClockSec = 1_700_000_000
 	cached := verifWorldHandler(0, layout, CacheConfig{Enabled: true, LRUSize: nd.Param("lru")})
 	plain := verifWorldHandler(0, layout, CacheConfig{})
+	amb := nd.Param("amb") == 1
+	if amb {
+		// two locations whose ids read alike when printed without padding: (1,23) and (12,3)
+		la, lb := []byte{1, 23}, []byte{12, 3}
+		recs := []dnsdata.VerifRec{
+			{Kind: 'Z', Dom: []byte("z"), TTL: 300, Target: []byte("ns.z")},
+			{Kind: '&', Dom: []byte("z"), TTL: 300, Target: []byte("ns.z"), IP: []byte{192, 0, 2, 1}},
+			{Kind: 'M', Dom: []byte("z"), Lmap: verifMapM},
+			{Kind: 'M', Dom: []byte("z"), Wild: true, Lmap: verifMapM},
+			{Kind: '%', Lmap: verifMapM, IP: v4in6(10, 0, 0, 0), Ones: 104, Loc: la},
+			{Kind: '%', Lmap: verifMapM, IP: v4in6(11, 0, 0, 0), Ones: 104, Loc: lb},
+			{Kind: '\'', Dom: []byte("p.z"), TTL: 60, Txt: []byte("for-1-23"), Loc: la},
+			{Kind: '\'', Dom: []byte("p.z"), TTL: 60, Txt: []byte("for-12-3"), Loc: lb},
+		}
+		cached = verifRecordsHandler(recs, layout, CacheConfig{Enabled: true, LRUSize: nd.Param("lru")})
+		plain = verifRecordsHandler(recs, layout, CacheConfig{})
+	}
 	for step := 0; step < h; step++ {
 		// the clock advances by a solver-chosen number of seconds (0 .. 65535: it may stand still,
 		// approach the expiry of a cached response or pass it)
@@ -80,6 +105,10 @@ func H12_seq() {
 		qtype := []uint16{dns.TypeA, dns.TypeTXT}[nd.Choice(2)]
 		k := nd.Choice(2)
 		remote := verifClientIPs[2*k] // a client mapped to L1 or an unmapped one
+		if amb {
+			remote = verifClientIPs[k] // 10.0.0.1 or 11.0.0.1: the two look-alike locations
+		}
+		qclass := []uint16{dns.ClassINET, dns.ClassCHAOS}[nd.Choice(2)] // the class is part of what was asked
 		id := nd.Uint16()
 		rd := nd.Bool() // RD and CD bits differ from query to query
 		build := func() *dns.Msg {
@@ -87,7 +116,7 @@ func H12_seq() {
 			m.Id = id
 			m.RecursionDesired = rd
 			m.CheckingDisabled = !rd
-			m.Question = []dns.Question{{Name: name, Qtype: qtype, Qclass: dns.ClassINET}}
+			m.Question = []dns.Question{{Name: name, Qtype: qtype, Qclass: qclass}}
 			return m
 		}
 		q1, q2 := build(), build()
